@@ -216,6 +216,14 @@ func (e *miniEnv) eval(n *ref.Node) (mv, bool) {
 			return mvNull, true
 		}
 		switch n.Op {
+		case "&&", "||", "??":
+			// the right operand is pure by construction (a leaf), so whether it is evaluated does not matter
+			truthy := !(a.K == "null" || a.K == "bool" && !a.B || a.K == "int" && a.I == 0 || a.K == "str" && a.S == "")
+			switch {
+			case n.Op == "&&" && !truthy, n.Op == "||" && truthy, n.Op == "??" && a.K != "null":
+				return a, false
+			}
+			return b, false
 		case "+":
 			if a.K == "int" && b.K == "int" {
 				sum := a.I + b.I
